@@ -18,7 +18,7 @@ TECH = {
  "C08": ("round-trip and injectivity monitor over exhaustive small alphabets + random paths, witness minimisation", "6.C08"),
  "C09": ("product-set (bitmask) denotation oracle, exhaustive over a bounded path alphabet, repeated evaluation for order dependence", "6.C09"),
  "C10": ("SetNode/GetNode history monitor with whole-tree frame check against the leaf-set model", "6.C10"),
- "C11": ("deep before/after snapshots of every argument of every listed API (GoStruct observer, proto.Clone+bytes, option structs)", "6.C11"),
+ "C11": ("deep before/after snapshots of every argument of every listed API (GoStruct observer, proto.Clone+bytes, option structs) + spare-capacity canaries in every repeated message field (detects append-in-place into the caller's slices)", "6.C11"),
  "C12": ("DeleteNode history monitor: leaf-set frame, GetNode after delete, ancestor emptiness, idempotence", "6.C12"),
  "C13": ("reference interpreter of gNMI Set semantics on a path->value model, compared after every request of a sequence", "6.C13"),
  "C14": ("invariant monitor on PruneEmptyBranches: panic guard, leaf-set preservation, no empty container left, idempotence", "6.C14"),
@@ -27,8 +27,8 @@ TECH = {
  "C17": ("exhaustive enum-value placement monitor (defined/zero/undefined) through every render and parse route, goyang name sets", "6.C17"),
  "C18": ("classified-input monitor (must-accept with exact value / must-reject / don't-care) over JSON and TypedValue decoding", "6.C18"),
  "C19": ("JSON token/lexical-form checker driven by the leaf-set observer and a direct goyang compilation", "6.C19"),
- "C20": ("panic monitor: seed corpus + structure-aware mutation of JSON/paths/TypedValues/SetRequests over every entry point", "6.C20"),
- "C21": ("Go race detector (-race, GORACE log parsing, de-duplicated by writer frame) on shared-tree/shared-message workloads + result equality with sequential runs", "5/6.C21"),
+ "C20": ("panic monitor: seed corpus + structure-aware mutation of JSON/paths/TypedValues/SetRequests over every entry point; thorough tier adds Go native coverage-guided fuzzing (go test -fuzz, fixed execution count) seeded with the same corpus", "6.C20"),
+ "C21": ("Go race detector (-race, GORACE log parsing, de-duplicated by writer frame) on shared-tree/shared-message/shared-path-struct workloads in cold processes + result equality with sequential runs", "5/6.C21"),
  "C22": ("metamorphic monitor: intent-preserving SetRequest rewrites, self-diff and swap laws of gnmidiff.DiffSetRequest", "6.C22"),
  "C23": ("single-edit classification monitor for gnmidiff.DiffSetRequestToNotifications against the Set reference model", "6.C23"),
  "C24": ("protoreflect-driven random populator, PathsFromProto/ProtoFromPaths round trip and annotation oracle", "6.C24"),
